@@ -177,7 +177,8 @@ EXTRA_BOXES = ([-2.5, 5.0], [-5.12, 5.12], [6.0, 10.0], [-1.0, 1.0])
 
 def grid_params(nparams, shift):
     allb = list(BOXES) + list(EXTRA_BOXES)
-    return [{"name": "p%d" % i, "bounds": list(allb[(i + shift) % len(allb)])} for i in range(nparams)]
+    from .c13 import pname
+    return [{"name": pname(i), "bounds": list(allb[(i + shift) % len(allb)])} for i in range(nparams)]
 
 
 def check_grid(nparams, shift, k):
